@@ -1,4 +1,9 @@
 #!/bin/sh
+# Development experiment, not a registered check (nothing in MANIFEST.json calls it).  Prerequisites it assumes:
+#   /tmp/harm/H1      a scratch worktree of /repo        (git -C /repo worktree add --detach /tmp/harm/H1 HEAD)
+#   /tmp/extract_new  the extractor                        (cd /verif/tools/extract && go build -o /tmp/extract_new .)
+#   /tmp/leandev      a private copy of /verif/lean with its own .lake   (rsync -a /verif/lean/ /tmp/leandev/)
+# Remove all three afterwards (git -C /repo worktree remove --force /tmp/harm/H1).
 # the 16 behaviour-preserving changes against the regenerated ties alone (translation + proofs, no correspondence run)
 mkdir -p /tmp/gen_keep; cp /tmp/leandev/ArtVerif/Gen/*.lean /tmp/gen_keep/
 for h in H1-1 H1-2 H1-3 H1-4 H2-1 H2-2 H2-3 H2-4 H3-1 H3-2 H3-3 H3-4 H4-1 H4-2 H4-3 H4-4; do
